@@ -62,6 +62,14 @@ def run_text_case(ref, wd, tmpd, canary, r, res, v, entry, rnd, tid):
         os.makedirs(d)
     import tempfile
     systmp = tempfile.gettempdir()
+    # an earlier failure of the same assertion in the same temporary directory (the directory lives on between runs): its
+    # actual has the same number of bytes and other content; what the failure under test reports must be about ITS actual
+    earlier = False
+    if entry == 'string' and tid % 3 == 2 and la and la[0] and la[0][0].isascii():
+        la0 = [('Z' if la[0][0] != 'Z' else 'Y') + la[0][1:]] + la[1:]
+        tl.call_entry(ref, entry, la0, le, kw, wd, nl_a, True, tag='c15')
+        earlier = True
+    tmp_before = snapshot(tmpd)
     before_s = set(os.listdir(systmp))
     before_c = snapshot(canary)
     before_w = snapshot(wd)
@@ -78,7 +86,7 @@ def run_text_case(ref, wd, tmpd, canary, r, res, v, entry, rnd, tid):
         elif o['rem']:
             first_pair = ([m_['R'] + m_['a'], m_['b']], [m_['b']])
     got, msg = tl.call_entry(ref, entry, la, le, kw, wd, nl_a, True, tag='c15', actual_path=own_actual, first_pair=first_pair)
-    after_tmp = snapshot(tmpd)
+    after_tmp = {p_: x_ for p_, x_ in snapshot(tmpd).items() if tmp_before.get(p_) != x_}      # written or rewritten by this call
     if own_actual:
         after_tmp.pop(os.path.relpath(own_actual, tmpd), None)
     after_c = snapshot(canary)
@@ -89,7 +97,7 @@ def run_text_case(ref, wd, tmpd, canary, r, res, v, entry, rnd, tid):
     outside = [p for p in after_w if not p.startswith(tmprel + os.sep) and p not in own and after_w[p] != before_w.get(p)]
     outside += [p for p in after_c if after_c[p] != before_c.get(p)]
     outside += [os.path.join(systmp, p) for p in set(os.listdir(systmp)) - before_s]     # the system temporary directory is not the configured one
-    ev = {'tid': tid, 'ev': 'Text', 'entry': entry, 'outcome': got, 'expectpass': bool(res['pass']),
+    ev = {'tid': tid, 'ev': 'Text', 'entry': entry, 'outcome': got, 'expectpass': bool(res['pass']), 'earlier_failure': earlier,
           'tmpfiles': len(after_tmp), 'outside': len(outside), 'raised': 'none',
           'cmdfiles_exist': True, 'has_cmd': False, 'has_actual_cmd': False, 'actual_faithful': True, 'has_post': False,
           'post_expected': bool(res['rdem'] and (res['effect'] or entry == 'string')),
@@ -203,7 +211,13 @@ def run(chk):
         chk.count_case(json.dumps([r['A'], r['E'], res['o']], sort_keys=True), nontrivial=not res['pass'])
         tid += 1
     # binary
-    for r in (bin_rows if thorough else rnd.sample(bin_rows, 500)):
+    # every model pair as it is, and behind a common prefix of thousands of identical bytes (MC_TextArtefacts.BinaryShift)
+    picked = list(bin_rows if thorough else rnd.sample(bin_rows, 500))
+    for r0 in (rnd.sample(bin_rows, min(len(bin_rows), 1200)) if thorough else rnd.sample(bin_rows, 160)):
+        k_ = rnd.choice([4095, 4096, 4097, 8192, 9000, 65536 + 3])
+        picked.append({'a': [7] * k_ + list(r0['a']), 'e': [7] * k_ + list(r0['e']), 'shift': k_,
+                       'bin': {'offset': r0['bin']['offset'] + k_, 'alen': r0['bin']['alen'] + k_, 'elen': r0['bin']['elen'] + k_}})
+    for r in picked:
         shutil.rmtree(tmpd, ignore_errors=True)
         os.makedirs(tmpd)
         ap, rp = os.path.join(wd, 'a.bin'), os.path.join(wd, 'r.bin')
@@ -228,9 +242,9 @@ def run(chk):
               'cmdfiles_exist': all(os.path.exists(c[4]) and os.path.exists(c[5]) for c in RE_CMD.findall(msg)),
               'has_cmd': bool(RE_CMD.findall(msg)), 'has_actual_cmd': bool(RE_CMD.findall(msg))}
         events.append(ev)
-        detail[tid] = {'a': r['a'], 'e': r['e'], 'message': msg[:600]}
+        detail[tid] = {'a': r['a'][-8:] if r.get('shift') else r['a'], 'e': r['e'][-8:] if r.get('shift') else r['e'], 'common_prefix_bytes': r.get('shift', 0), 'message': msg[:600]}
         chk.coverage['replayed_cases'] += 1
-        chk.count_case(json.dumps([r['a'], r['e']]), nontrivial=r['a'] != r['e'])
+        chk.count_case(json.dumps([r['a'][-8:], r['e'][-8:], r.get('shift', 0)]), nontrivial=r['a'] != r['e'])
         tid += 1
     clean = [{k: v for k, v in e.items() if k not in ('post_diffs', 'want_diffs', 'actual_file_lines')} for e in events]
     res, rejected = trace.validate('Trace_TextArtefacts', 'Trace_TextArtefacts.cfg', clean, name='artefacts', workers=4)
